@@ -145,6 +145,10 @@ def check(case):
                              % (s.name, s.location, s.status.name))
                     break
         res.label("failures")
+        if (prog.get("cfg") or {}).get("names"):
+            res.label("failures:with-name-selection")
+            if (prog.get("cfg") or {}).get("show_skipped") is False:
+                res.label("failures:with-name-selection+no-skipped")
         for k in failed_kind:
             res.label("kind:" + k)
         if os.path.dirname(rerun_rel):
@@ -191,6 +195,10 @@ def case_st(draw):
         # a cleanup registered by a hook (context.add_cleanup) raises when its scope ends: the owning element
         # has a problem although all of its steps may have passed
         prog["cleanups"] = [{"at": draw(st.integers(0, 10000)), "raises": True}]
+    if draw(st.integers(0, 3)) == 0:
+        # a selection by name next to everything else (--name): only matching scenarios run, fail and are listed
+        prog["cfg"]["names"] = [draw(st.sampled_from([u"[SO][0-9]*[13579]( |$)", u"[SO][0-9]*[02468]( |$)", u"^S", u"^O",
+                                                      u"@1\\.1 ", u"[1-4]( |$)"]))]
     case = {"program": prog, "stale": draw(st.integers(0, 3)) == 0,
             "rerun_file": draw(st.sampled_from(["rerun.txt", "rerun.txt", "reports/rerun.txt", "features/rerun.features"])),
             "fmt_class": draw(st.sampled_from([0, 0, 0, 0, 1, 2]))}
@@ -220,7 +228,7 @@ def explore(rec):
 
 
 def required_labels(tier):
-    return ["user-defined-rerun-formatter-class", "no-failures", "failures", "kind:failed", "kind:error", "rerun-file:subdir", "stale-removed",
+    return ["failures:with-name-selection+no-skipped", "user-defined-rerun-formatter-class", "no-failures", "failures", "kind:failed", "kind:error", "rerun-file:subdir", "stale-removed",
             "stale-overwritten", "row-listed", "hook-fault", "listed-name-not-unique", "inherited-@setup/@teardown", "feature.skip()-after-a-failure",
             "feature-dir:symlink", "feature-dir:special-characters", "raising-cleanup:scenario-scope"]
 
